@@ -665,7 +665,7 @@ class Maps:
                 return self.contracts[fn.name](ex, st, args, kwargs, star=star, dstar=dstar)
             if fn.name in self.classes:
                 return self.construct(ex, st, SV('cls', None, tag=self.cls_tag(fn.name), base=fn.name), args, kwargs, star, dstar)
-            if fn.name == 'dict' and not args and star is None:
+            if fn.name == 'dict' and len(args) <= 1 and star is None:
                 return self.construct(ex, st, SV('cls', None, tag=CLS_DICT, base='dict'), args, kwargs, star, dstar)
         if fn.kind == 'bound':
             if star is not None or dstar is not None:
